@@ -53,6 +53,14 @@ def U(universe, oracle, bounds, ref, level="exploration", tech=None):
     return (level, tech, universe + " Oracle: " + oracle, bounds, ref)
 
 CHECKS.update({
+ "C08": U("176 programs: 26 captured shapes (array, struct, tuple, enum value, string, closure, and each data kind nested once inside array / struct field / tuple / enum payload) x mutation by the task x mutation or reassignment by the spawner after the spawn, both sides observed through channels, plus captured channels (must stay shared); each under uniform budgets 1,2,3,7,64,1000 and ALL embedder executions with <= 1 (quick) / 2 (thorough) deviations;",
+          "deep copy at spawn: the task's view reflects only its own mutation, the spawner's view only its own; channels are shared.",
+          "Tasks spawned at top level; nesting depth 2.", "DESIGN.md §3 C08", "model_checking",
+          "enumeration of capture shapes x mutation patterns, each explored under all embedder schedules with a bounded number of deviations on the real runtime, against a copy-at-spawn model"),
+ "C17": U("all 19x19 ordered pairs over a structured string set (empty, prefix/extension, first difference at first/middle/last byte of 40 bytes, NUL, multi-byte UTF-8), each evaluating `..` and the six comparisons in 3 (quick) / 5 (thorough) operand forms under uniform budgets 1,2,3,7,64,MAX; all embedder executions with <= 1 deviation; a collection cycle started at EVERY instruction boundary and completed 0,1 (quick) / 0,1,2,5,end (thorough) steps later;",
+          "Rust byte-wise concatenation and lexicographic order; no reclaimed object reachable or touched in any state.",
+          "Structured set instead of random strings; the full mutator x collector interleaving search for string temporaries is part of C06.", "DESIGN.md §3 C17", "model_checking",
+          "exhaustive pairs x operand forms under enumerated budget schedules (uniform and deviation-bounded) and enumerated collection windows driven through the schedulable-collector hooks"),
  "C03": U("all programs `context^k x payload` (k <= 2 quick / 3 thorough; contexts fn, member fn, lambda, task, while, for, match arm, if, operand block; 27 payload kinds incl. break/continue/return/?/!, assignments to outer variables/fields/elements/user-Index, tasks, lambdas, scrutinee-only uses, user Num operators), each compiled standalone;",
           "check() gives diagnostics, or check() is Ok and compile_bytecode() is Ok and the program runs under budget 1 without a VM fault; a sanity guard requires the no-op payload to be accepted in every context.",
           "Bounded nesting depth; four constructs the checker lets through but the translator does not implement are open known findings keyed by payload kind + failure class (known_findings.json).", "DESIGN.md §3 C03"),
